@@ -116,8 +116,11 @@ Theorem unserialize_serialize : forall v, serializable v = true ->
 Proof. exact unserialize_serialize_l. Qed.
 Print Assumptions unserialize_serialize.
 
-(* "every decoder is total": the fuel unserialize gives its scanner (2*len+2) always suffices;
-   the model has no partial operation (every index is guarded by a length test, as in the code) *)
+(* "every decoder is total": the fuel unserialize gives its scanner (2*len+2) always suffices.
+   That the Go code has no failing index / slice operation is NOT a theorem: the model has no Crash
+   outcome because, on my reading of the code, every index is guarded by a length test; that reading is
+   backed only by the tie (all 1- and 2-byte inputs, hostile lengths, mutants, panics reported as
+   violations). *)
 Theorem unserialize_total : forall s, unserialize s <> POutOfFuel.
 Proof. exact unserialize_total_l. Qed.
 Print Assumptions unserialize_total.
@@ -152,19 +155,19 @@ Print Assumptions unserialize_accepts_iff.
    that carry keys (their round trip is checked on the implementation by the driver). *)
 
 (* ====================================================================== (4) JSON value <-> tree *)
-(* The reference reading (JsonSpec: what the format's own rules give) inverts the reference
-   encoding for every value: 64-bit ints, finite floats (they stay floats), UTF-8 strings, lists,
-   objects and keyed arrays with distinct keys, any nesting, in both decode modes. *)
-Theorem json_spec_roundtrip : forall ib assoc v, JsonSpec.spec_ok v = true ->
-  exists t, spec_to_json ib v = Some t /\ spec_of_json assoc t = view assoc v.
-Proof. exact spec_roundtrip_l. Qed.
-Print Assumptions json_spec_roundtrip.
+(* "emits output that the format's reference implementation reads back as the same value": the
+   reference reader (JsonSpec.spec_of_json, either mode) reads json_encode's output back as the value,
+   for every value the format can carry (64-bit ints, finite floats, UTF-8 strings and keys, distinct
+   keys; lists, objects, keyed arrays, any nesting) ... *)
+Theorem json_encode_denotes : forall ib assoc v, JsonSpec.spec_ok v = true ->
+  exists t, json_encode ib v = Some t /\ spec_of_json assoc t = view assoc v.
+Proof. exact json_encode_denotes_l. Qed.
+Print Assumptions json_encode_denotes.
 
-(* json_encode IS the reference encoding, for every value (keyed arrays become objects, floats keep
-   a fraction, NaN / INF / text that is not UTF-8 are refused with false) *)
-Theorem json_encoder_agrees : forall ib v, to_json ib v = spec_to_json ib v.
-Proof. exact encoder_agrees_l. Qed.
-Print Assumptions json_encoder_agrees.
+(* ... and json_encode answers false exactly on the values that have no JSON encoding *)
+Theorem json_encode_refuses : forall ib v, json_encode ib v = None <-> encodable v = false.
+Proof. exact json_encode_refuses_l. Qed.
+Print Assumptions json_encode_refuses.
 
 (* default-mode json_decode is the reference reading (key order, exact 64-bit ints, larger
    literals as floats, nesting limit) on every text whose top level is an object ... *)
